@@ -6,16 +6,23 @@ hashing over the schedules of the real class — with a context switch possible 
 store of the light-switch counters (sys.monitoring), on a private copy of the module imported under the shim so that a Lock
 created at class-definition time is driven too; two writers inside / writer + reader inside / deadlock / an exception /
 not reusable at the end / readers never sharing is a violation, with the schedule as replay."""
-import os, sys, dis, types, subprocess, time, multiprocessing, importlib.util
+import os, sys, dis, types, subprocess, time, multiprocessing, importlib.util, hashlib
 from lib import common
 from lib.dsched import Sched
 
 RULE = ("model graph: every reachable state and every transition (state, thread) of the visible-step semantics for the "
         "thread sets below (BFS through the model driver); one generated schedule per uncovered transition, run to the end, "
         "replayed on the real RWLock under the deterministic scheduler and compared state by state (threads' pending lock "
-        "operation, rounds done, inside flags, five mutexes, two counters, blocked set); a trace is distinct by its schedule; "
+        "operation, rounds done, inside flags, five mutexes, two counters, blocked set).  Counting: `evaluations` = traces "
+        "replayed; a case is DISTINCT by its canonical form (thread set, schedule), counted with a set (`distinct_cases`); a "
+        "case is TRIVIAL when every thread's steps are contiguous in the schedule (the threads ran one after another: no "
+        "thread waited or was resumed after another one ran); `distinct_nontrivial` = distinct cases that are not trivial; "
         "search: exhaustive DFS with state hashing on the real class over the same thread sets (quick: up to 3 readers + 2 "
-        "writers one round each and 2+1 / 1+2 with two rounds; thorough: 3 readers + 2 writers with 1-2 rounds each)")
+        "writers one round each and 2+1 / 1+2 with two rounds; thorough: 3 readers + 2 writers with 1-2 rounds each).  Budgets "
+        "are COUNTS derived from the tier (transitions executed on the real class per thread set: quick 150000, thorough "
+        "700000), never wall clock: the explored set is a function of (tree, tier, VERIF_SEED); thread sets whose state "
+        "space is larger than the budget are explored breadth-first up to it and listed in `search_incomplete`; a wall-clock "
+        "safety cap (quick 600 s, thorough 3000 s) ends the check with exit 2 (timeout), never with a smaller PASS")
 ASSUMPTIONS = ["threading.Lock semantics (acquire blocks while held, release by any thread, release of a free lock raises) are "
                "modelled by the shim and by RW.exec, not verified against CPython",
                "a context switch is possible exactly at the operations on the underlying mutexes (the property's quantifier); "
@@ -433,23 +440,41 @@ def specs(ctx):
 
 
 def search_specs(ctx):
-    """the search (real class only) also covers larger thread sets in the thorough tier; the last ones are cut off by the
-    time budget (recorded as incomplete in the evidence, never a violation)"""
+    """the search (real class only) also covers larger thread sets in the thorough tier; the largest one exceeds the run
+    budget and is explored breadth-first up to it (listed in `search_incomplete`, never a violation)"""
     if ctx.quick:
         return specs(ctx)
     return specs(ctx) + [["rr", "r", "r", "w", "w"], ["r", "r", "r", "ww", "w"], ["rw", "r", "r", "w", "w"],
                          ["rr", "rr", "r", "ww", "w"], ["rr", "rr", "rr", "ww", "ww"]]
 
 
+def interleaved(sch):
+    """a schedule is TRIVIAL when every thread's steps are contiguous (the threads ran one after another); non-trivial when
+    some thread is resumed after another one ran"""
+    seen, last = set(), None
+    for j in sch:
+        if j != last:
+            if j in seen:
+                return True
+            seen.add(j)
+            last = j
+    return False
+
+
+def safety_cap(ctx, t0, where):
+    """budgets are counts; this wall-clock cap only guards against a hung machine and ends in exit 2 (check.py: TIMEOUT)"""
+    cap = 600 if ctx.quick else 3000
+    if time.time() - t0 > cap:
+        raise subprocess.TimeoutExpired("C20 " + where, cap)
+
+
 def correspond(ctx):
     t0 = time.time()
     validated = 0
     nstates = nedges = 0
-    budget = 40 if ctx.quick else 600
+    distinct, nontrivial = set(), set()
     for spec in specs(ctx):
-        if time.time() - t0 > budget:
-            ctx.hist("correspondence.skipped_for_time", ",".join(spec))
-            continue
+        safety_cap(ctx, t0, "correspondence, thread set " + ",".join(spec))
         try:
             s0, graph, path = model_graph(spec)
         except HarnessError as e:
@@ -473,7 +498,12 @@ def correspond(ctx):
                 return
             impl, bad = im["impl"], im["bad"]
             ctx.cov["evaluations"] += 1
-            ctx.cov["distinct_nontrivial"] += 1
+            case = (",".join(spec), tuple(sch))
+            distinct.add(case)
+            if interleaved(sch):
+                nontrivial.add(case)
+            ctx.cov["distinct_cases"] = len(distinct)
+            ctx.cov["distinct_nontrivial"] = len(nontrivial)
             ctx.hist("traces.threads", ",".join(spec))
             if impl != o.strip():
                 a, b = impl.split(";"), o.strip().split(";")
@@ -493,20 +523,21 @@ def correspond(ctx):
         if scheds:
             ctx.sample({"threads": ",".join(spec), "schedule": sched_str(scheds[-1]), "model": outs[-1][-200:]})
     ctx.cov["traces_validated_against_impl"] = validated
+    ctx.cov["explored_digest"] = hashlib.sha1(repr(sorted(distinct)).encode()).hexdigest()[:16]
     ctx.cov["model_states"] = nstates
     ctx.cov["model_transitions_covered"] = nedges
 
 
 # ------------------------------------------------------------------------------------------------
 # search: exhaustive DFS with state hashing on the REAL class (no model involved)
-def explore_real(spec, deadline, max_states=None, roots=None, fine=False):
+def explore_real(spec, max_runs=None, max_states=None, roots=None, fine=False):
     """DFS with state hashing over the schedules of the real class (each run replays a prefix, then extends it through
     unvisited states, pushing the alternatives).  returns dict(states, runs, steps, two_readers, violation, complete)"""
     seen = set()
     stack = [list(p) for p in (roots or [[]])]
     res = {"states": 0, "runs": 0, "steps": 0, "two_readers": False, "violation": None, "complete": True}
     while stack:
-        if time.time() > deadline or (max_states and len(seen) > max_states):
+        if (max_runs and res["runs"] >= max_runs) or (max_states and len(seen) > max_states):
             res["complete"] = False
             break
         prefix = stack.pop()
@@ -592,7 +623,7 @@ def pool():
     return _POOL
 
 
-def explore_real_parallel(spec, deadline, fine=False):
+def explore_real_parallel(spec, max_runs=None, fine=False, tick=None):
     """breadth-first over the schedules of the real class with central state hashing; every transition is executed
     (prefix + one step) in a worker process.  Same result record as explore_real."""
     res = {"states": 0, "runs": 0, "steps": 0, "two_readers": False, "violation": None, "complete": True}
@@ -605,9 +636,14 @@ def explore_real_parallel(spec, deadline, fine=False):
         tasks = [(spec, sch + [j], fine) for sch, o in frontier for j in o["enabled"]]
         if not tasks:
             break
-        if time.time() > deadline:
+        if max_runs and res["runs"] + len(tasks) > max_runs:
+            # deterministic cut: the frontier is in a fixed order (BFS level order, thread ids ascending)
+            tasks = tasks[:max_runs - res["runs"]]
             res["complete"] = False
-            break
+            if not tasks:
+                break
+        if tick:
+            tick()
         outs = pool().map(_edge_task, tasks, chunksize=max(1, len(tasks) // 64))
         res["runs"] += len(tasks)
         res["steps"] += sum(len(t[1]) for t in tasks)
@@ -624,6 +660,8 @@ def explore_real_parallel(spec, deadline, fine=False):
             if o["key"] not in seen:
                 seen.add(o["key"])
                 nxt.append((sch, o))
+        if not res["complete"]:
+            break
         frontier = nxt
     res["states"] = len(seen)
     return res
@@ -631,22 +669,24 @@ def explore_real_parallel(spec, deadline, fine=False):
 
 def search(ctx):
     t0 = time.time()
-    budget = 45 if ctx.quick else 600
+    budget = 150000 if ctx.quick else 700000      # transitions executed on the real class, per thread set
     tot_states = tot_runs = 0
+    incomplete = []
     for spec in search_specs(ctx):
-        left = budget - (time.time() - t0)
-        if left <= 1:
-            ctx.hist("search.skipped_for_time", ",".join(spec))
-            continue
+        name = ",".join(spec)
+        safety_cap(ctx, t0, "search, thread set " + name)
         try:
-            res = explore_real_parallel(spec, time.time() + left, fine=True) if len(spec) >= 3 else \
-                explore_real(spec, time.time() + left, fine=True)
+            res = explore_real_parallel(spec, budget, fine=True, tick=lambda: safety_cap(ctx, t0, "search, thread set " + name)) \
+                if len(spec) >= 3 else explore_real(spec, max_runs=budget, fine=True)
         except HarnessError as e:
             ctx.problem("harness", "cannot drive the real RWLock", e)
             return
         tot_states += res["states"]; tot_runs += res["runs"]
         ctx.hist("search.states", ",".join(spec), res["states"])
         ctx.hist("search.complete", ",".join(spec), 1 if res["complete"] else 0)
+        if not res["complete"]:
+            incomplete.append({"threads": name, "states_explored": res["states"], "transitions_executed": res["runs"],
+                               "reason": "run budget %d of tier %s reached (breadth-first prefix explored)" % (budget, ctx.tier)})
         if res["violation"]:
             v = res["violation"]
             ctx.violation({"input": {"threads": ",".join(spec), "schedule": v["schedule"], "fine": True},
@@ -661,6 +701,7 @@ def search(ctx):
             return
     ctx.cov["search_evaluations"] = tot_states
     ctx.cov["search_runs"] = tot_runs
+    ctx.cov["search_incomplete"] = incomplete
 
 
 def replay(rec):
@@ -668,7 +709,7 @@ def replay(rec):
     spec = i["threads"].split(",")
     fine = bool(i.get("fine"))
     if rec.get("kind_detail") == "readers-not-shared" or not i["schedule"]:
-        res = explore_real(spec, time.time() + 600, fine=fine)
+        res = explore_real(spec, max_runs=2000000, fine=fine)
         return bool(res["violation"]) or (res["complete"] and not res["two_readers"])
     _, _, bad = run_schedule(spec, i["schedule"], want_states=False, fine=fine)
     return bad is not None
